@@ -64,7 +64,7 @@ ASSUMPTIONS = [
     'a scope id is over-long above 15 characters (IFNAMSIZ-1), the limit the statement refers to',
 ]
 INTERPRETER_FLAGS = [[], ['-O'], [], ['-bb']]
-CONCURRENT = lambda case: True          # pure functions of their arguments; see vlib/concurrent.py
+CONCURRENT = lambda case: case.get('kind') != 'twins' and (True)          # pure functions of their arguments; see vlib/concurrent.py
 SHARDS = {'quick': 4, 'thorough': 16}
 MIN_DISTINCT = {'quick': 20000, 'thorough': 400000}
 
@@ -518,7 +518,24 @@ def wrap_int(v, how):
     return v
 
 
+def TWIN_FUNCS():
+    from oslo_utils import netutils as nu
+    return {n: getattr(nu, n) for n in ('is_valid_ip', 'is_valid_ipv4', 'is_valid_ipv6', 'is_valid_cidr', 'is_valid_mac',
+                                        'is_valid_port', 'is_valid_icmp_type', 'is_valid_icmp_code', 'is_valid_ipv6_cidr')}
+
+
+TWIN_TEXT_FUNCS = ['is_valid_ip', 'is_valid_ipv4', 'is_valid_ipv6', 'is_valid_cidr', 'is_valid_mac', 'is_valid_port',
+                   'is_valid_ipv6_cidr']
+TWIN_TEXTS = ['fe80::AbCd', '10.0.0.1', 'AA:bb:CC:dd:EE:ff', '::FFFF:1.2.3.4', '2001:DB8::/32', '80', 'Fe80::1%Eth0',
+              '10.0.0.0/8', 'aB:cD:eF:01:23:45', '2001:db8::A/64', '65535', 'not an address']
+TWIN_NUM_FUNCS = ['is_valid_port', 'is_valid_icmp_type', 'is_valid_icmp_code']
+TWIN_NUMBERS = [0, 1, 80, 255, 256, 65535, 65536, -1, 8080]
+
+
 def _evaluate_nomodes(ctx, case):
+    if case.get('kind') == 'twins':
+        from vlib import twins as _tw
+        return _tw.evaluate_case(ctx, case, TWIN_FUNCS())
     funcs = _functions()
     kind = case['kind']
     if kind == 'int':
@@ -617,7 +634,7 @@ def _evaluate_nomodes(ctx, case):
 
 
 from vlib import envmodes  # noqa: E402
-evaluate = envmodes.with_modes(_evaluate_nomodes, warn=lambda case: True)
+evaluate = envmodes.with_modes(_evaluate_nomodes, warn=lambda case: True, digits=lambda case: True, debug=lambda case: True)
 
 
 # --------------------------------------------------------------------------
@@ -981,6 +998,12 @@ def HAMMER(ctx):
     return out
 
 def run(ctx):
+    # ---- the same characters / the same number handed over as other objects, in several orders (vlib/twins.py)
+    from vlib import twins as _tw
+    for _i, _case in enumerate(_tw.make_cases(ctx.rng('twins'), ctx.pick(160, 8000), TWIN_TEXT_FUNCS, TWIN_TEXTS,
+                                              TWIN_NUM_FUNCS, TWIN_NUMBERS)):
+        if ctx.mine(_i):
+            evaluate(ctx, _case)
     idx = 0
 
     def emit(case):
